@@ -60,7 +60,9 @@ Inductive outev :=
 | SendCred (chunk : str) (acked : bool)    (* AUTHENTICATE <credential chunk>: same wire form as Send AUTHENTICATE [chunk];
                                               ghost: 'sasl' was acknowledged on this connection *)
 | GReq (caps advertised acked : list str)  (* ghost: _requestCaps is about to request [caps]; what was advertised / acknowledged then *)
-| GEnd (n : nat) (outstanding : list str)  (* ghost: the n-th CAP END of this connection; requests still unanswered then *)
+| GEnd (n : nat) (outstanding : list str) (authenticated : bool)
+                                           (* ghost: the n-th CAP END of this connection; requests still unanswered then;
+                                              sasl_authenticated then *)
 | Reconnect (server : option (str * Z * Z * bool)) (wait : bool)   (* host, port, attempt, force verification *)
 | Die
 | StoreSts (host policy : str).
@@ -181,11 +183,21 @@ Definition reconnect (c : cfg) (s : st) (server : option (str * Z * Z * bool)) (
   emit s (Reconnect server wait) >>> fun s => reset c s.
 
 (* ---- CAP ---- *)
-Definition endCap (s : st) : R :=
+(* Irc._saslRequiredButNotAuthenticated *)
+Definition required_unauth (c : cfg) (s : st) : bool := negb (authed s) && c_required c.
+
+Definition outstanding (s : st) : list str := sdiff (sdiff (req s) (ack s)) (nak s).
+
+Definition endCap (c : cfg) (s : st) : R :=
+  if required_unauth c s then reconnect c s None true     (* log.error; CAP END is not sent, the connection is dropped *)
+  else match outstanding s with
+  | _ :: _ => ret s                            (* a CAP REQ is still unanswered: capUpkeep will come back *)
+  | [] =>
   transition gen.T08.EV_on_cap_end s >>> fun s =>
-  emit s (GEnd (S (g_ends s)) (sdiff (req s) (sunion (ack s) (nak s)))) >>> fun s =>
+  emit s (GEnd (S (g_ends s)) (sdiff (req s) (sunion (ack s) (nak s))) (authed s)) >>> fun s =>
   send (St (fsm s) (ls s) (req s) (ack s) (nak s) (snext s) (scur s) (authed s) (dec s) (after s) (zombie s)
-           (g_acked s) (S (g_ends s))) s_CAP [s_END].
+           (g_acked s) (S (g_ends s))) s_CAP [s_END]
+  end.
 
 Definition with_sasl (s : st) (nx : list str) (cur : option str) : st :=
   St (fsm s) (ls s) (req s) (ack s) (nak s) nx cur (authed s) (dec s) (after s) (zombie s) (g_acked s) (g_ends s).
@@ -198,7 +210,7 @@ Definition tryNextSasl (c : cfg) (s : st) : R :=
       if c_required c then ret s            (* log.error only *)
       else
         transition gen.T08.EV_on_sasl_auth_finished (with_sasl s [] None) >>> fun s =>
-        if N.eqb (fsm s) INIT_CAP then endCap s else ret s
+        if N.eqb (fsm s) INIT_CAP then endCap c s else ret s
   end.
 
 Definition comma_split (s : str) : list str := split_char 44 s.
@@ -217,6 +229,7 @@ Definition maybeStartSasl (c : cfg) (s : st) : R :=
                   end in
         tryNextSasl c s1
     end
+  else if N.eqb (fsm s) INIT_CAP then endCap c s     (* already authenticated; the last CAP REQ was just answered *)
   else ret s.
 
 Definition capUpkeep (c : cfg) (s : st) : R :=
@@ -226,7 +239,7 @@ Definition capUpkeep (c : cfg) (s : st) : R :=
   else if ssubset (req s) responded then
     if smem s_sasl (ack s) then
       (if N.eqb (fsm s) INIT_CAP || N.eqb (fsm s) CONNECTED then maybeStartSasl c s else ret s)
-    else if negb (N.eqb (fsm s) CONNECTED) then endCap s
+    else if negb (N.eqb (fsm s) CONNECTED) then endCap c s
     else ret s
   else ret s.
 
@@ -312,16 +325,23 @@ Fixpoint addCapabilities (c : cfg) (items : list str) (s : st) : R :=
        end) >>> addCapabilities c r
   end.
 
-Definition requestCaps (s : st) (caps0 : list str) : R :=
+(* the capabilities _requestCaps really asks for: sorted, echo-message only next to labeled-response *)
+Definition request_list (s : st) (caps0 : list str) : list str :=
   let caps := sort_strs caps0 in
-  let caps :=
-    if smem s_echo caps && negb (smem s_label (ack s)) then
-      let caps1 := sremove s_echo caps in
-      if smem s_label caps1 then s_echo :: s_label :: sremove s_label caps1 else caps1
-    else caps in
+  if smem s_echo caps && negb (smem s_label (ack s)) then
+    let caps1 := sremove s_echo caps in
+    if smem s_label caps1 then s_echo :: s_label :: sremove s_label caps1 else caps1
+  else caps.
+
+Definition requestCaps (s : st) (caps0 : list str) : R :=
+  let caps := request_list s caps0 in
   let s1 := set_caps s (ls s) (sunion (req s) caps) (ack s) (nak s) in
   fold_left (fun (r : R) line => r >>> fun s => send s s_CAP [s_REQ; line]) (wrap_caps caps)
             (emit s1 (GReq caps (map fst (ls s)) (ack s))).
+
+(* its return value: bool(cap_lines) *)
+Definition requested_something (s : st) (caps0 : list str) : bool :=
+  match wrap_caps (request_list s caps0) with [] => false | _ :: _ => true end.
 
 Definition new_caps (c : cfg) (s : st) : list str :=
   sdiff (filter (fun x => smem x (c_wanted c)) (map fst (ls s))) (ack s).
@@ -336,8 +356,8 @@ Definition doCapLs (c : cfg) (s : st) (args : list str) : R :=
       else
         expect gen.T08.EXPECT_doCapLs s >>> fun s =>
         match new_caps c s with
-        | [] => endCap s
-        | nc => requestCaps s nc
+        | [] => endCap c s
+        | nc => requestCaps s nc >>> fun s' => if requested_something s nc then ret s' else endCap c s'
         end
   | _ => ret s
   end.
@@ -430,10 +450,10 @@ Definition doAuthenticate (c : cfg) (s : st) (args : list str) (b64ok empty : bo
         end
   end.
 
-Definition do903 (s : st) : R :=
+Definition do903 (c : cfg) (s : st) : R :=
   let s := St (fsm s) (ls s) (req s) (ack s) (nak s) (snext s) (scur s) true (dec s) (after s) (zombie s) (g_acked s) (g_ends s) in
   transition gen.T08.EV_on_sasl_auth_finished s >>> fun s =>
-  if N.eqb (fsm s) INIT_CAP then endCap s else ret s.
+  if N.eqb (fsm s) INIT_CAP then endCap c s else ret s.
 
 Definition do908 (s : st) (args : list str) : R :=
   match args with
@@ -446,6 +466,8 @@ Definition set_after (s : st) : st :=
   St (fsm s) (ls s) (req s) (ack s) (nak s) (snext s) (scur s) (authed s) (dec s) true (zombie s) (g_acked s) (g_ends s).
 
 Definition do376 (c : cfg) (s : st) : R :=
+  if required_unauth c s then reconnect c s None true   (* log.error; the connection is dropped *)
+  else
   transition gen.T08.EV_on_end_motd s >>> fun s =>
   let s := set_after s in
   if c_umodes c then send s s_MODE [] else ret s.
@@ -498,7 +520,7 @@ Definition step (c : cfg) (s : st) (m : inmsg) : R :=
       end
   | IAuth args b64ok empty => doAuthenticate c s args b64ok empty
   | INum code args =>
-      if N.eqb code 903 then do903 s
+      if N.eqb code 903 then do903 c s
       else if (904 <=? code) && (code <=? 907) then tryNextSasl c s
       else if N.eqb code 908 then do908 s args
       else if N.eqb code 375 then transition gen.T08.EV_on_start_motd s
@@ -537,7 +559,7 @@ Definition vOut (o : outev) : value :=
   | Send cmd args => L [I 0; vS cmd; vLS args]
   | SendCred ch _ => L [I 0; vS s_AUTH; vLS [ch]]
   | GReq _ _ _ => L []
-  | GEnd _ _ => L []
+  | GEnd _ _ _ => L []
   | Reconnect None w => L [I 1; L []; vB w]
   | Reconnect (Some (h, p, a, f)) w => L [I 1; L [vS h; I p; I a; vB f]; vB w]
   | Die => L [I 2]
@@ -553,7 +575,7 @@ Definition gMsg (v : value) : inmsg :=
   | 4 => IPing (gLS a)
   | _ => IReset
   end.
-Definition visible (o : outev) : bool := match o with GReq _ _ _ => false | GEnd _ _ => false | _ => true end.
+Definition visible (o : outev) : bool := match o with GReq _ _ _ => false | GEnd _ _ _ => false | _ => true end.
 Definition vExn (e : option exn) : value := match e with None => L [] | Some x => L [I (exn_code x)] end.
 
 (* run (0 (cfg state msg)) -> (state' outputs exn)     one step from a snapshot
